@@ -220,6 +220,10 @@ static void judgeFun(vf::Case& c, const Mat& M, int cA, int cO, bool spd) {
   auto dimsOk = [&](const Matrix<double>& O, const std::string& what) { if ((int)O.getNumberOfRows() != n || (int)O.getNumberOfColumns() != n) { c.fail(what + "|result-dimensions", in()); return false; } return true; };
   std::vector<LD> Am((size_t)n * n); for (size_t i = 0; i < Am.size(); ++i) Am[i] = M.a[i];
   auto mul = [&](const std::vector<LD>& x, const std::vector<LD>& y) { std::vector<LD> z((size_t)n * n, 0); for (int i = 0; i < n; ++i) for (int k = 0; k < n; ++k) for (int j = 0; j < n; ++j) z[(size_t)i * n + j] += x[(size_t)i * n + k] * y[(size_t)k * n + j]; return z; };
+  // result objects are handed over with a previous content (a result object is typically re-used): 0 = 1x1 holding 7, 1 = the right
+  // shape filled with other values, 2 = one row and one column more, filled; the result must not depend on it
+  auto mkPre = [&](int variant) { int r = variant == 0 ? 1 : variant == 1 ? n : n + 1; auto O = mk(cO, r, r);
+    for (size_t i = 0; i < O->getNumberOfRows(); ++i) for (size_t j = 0; j < O->getNumberOfColumns(); ++j) (*O)(i, j) = 7 + (double)i - 2 * (double)j; return O; };
   // exp against the power series (long double, at most 120 terms; |A|_inf <= 8 so the series rounding is below 120.n.2^-64.e^|A|)
   if (nA <= 8) {
     std::vector<LD> term((size_t)n * n, 0), sum((size_t)n * n, 0); for (int i = 0; i < n; ++i) term[(size_t)i * n + i] = sum[(size_t)i * n + i] = 1;
@@ -230,7 +234,7 @@ static void judgeFun(vf::Case& c, const Mat& M, int cA, int cO, bool spd) {
       term.swap(nxt); for (size_t i = 0; i < sum.size(); ++i) sum[i] += term[i];
       if (big < ldexpl(1.0L, -80) && k > 2 * nA) break;
     }
-    auto O = mk(cO, 1, 1);
+    auto O = mkPre(1);
     c.site("MatrixTools::exp");
     try { MatrixTools::exp(*A, *O); } catch (Exception& e) { c.fail("exp|unexpected-exception", in() + " what=" + e.what()); return; }
     if (dimsOk(*O, "exp")) {
@@ -244,7 +248,7 @@ static void judgeFun(vf::Case& c, const Mat& M, int cA, int cO, bool spd) {
   std::vector<LD> P = Am;
   for (int p = 2; p <= 3; ++p) {
     P = mul(P, Am);   // exact: small integers
-    auto O = mk(cO, 1, 1);
+    auto O = mkPre(p == 2 ? 2 : 0);
     c.site("MatrixTools::pow(double)");
     try { MatrixTools::pow(*A, (double)p, *O); } catch (Exception& e) { c.fail("pow|unexpected-exception", in() + " what=" + e.what()); return; }
     if (!dimsOk(*O, "pow")) continue;
@@ -257,7 +261,7 @@ static void judgeFun(vf::Case& c, const Mat& M, int cA, int cO, bool spd) {
   // square root of a symmetric positive definite matrix: S = pow(A, 0.5), S.S = A.  S = sqrt(A+E) + F with |F| <= base.sqrt(|A|) (fmax part),
   // S.S - A = E + sqrt(A+E).F + F.sqrt(A+E) + F.F, |sqrt(A+E)| <= kappa.sqrt(|A|+|E|)
   if (spd) {
-    auto O = mk(cO, 1, 1);
+    auto O = mkPre(1);
     c.site("MatrixTools::pow(double)");
     try { MatrixTools::pow(*A, 0.5, *O); } catch (Exception& e) { c.fail("pow|unexpected-exception", in() + " what=" + e.what()); return; }
     if (dimsOk(*O, "pow")) {
